@@ -11,7 +11,7 @@ CLAIMED = {
              "implementation's outputs. Times are values: register sessions over real Time objects (in-place update, results of + and "
              "from_float, the module-level inf) run against the value model (frame theorems update_frame/put_frame), so state cached "
              "inside an object or shared between objects is a disagreement; rounding-abstract reading for every FloatModel with a proved "
-             "binary64 instance (C14Float).",
+             "binary64 instance (C14Float); the same reading extended by +-inf and NaN (C14FloatInf: t + inf = inf for every t, the six comparisons and the heap comparison agree with WithTop Q on proper times, finite clauses by one transfer lemma; inf + finite = Time(nan,nan) and inf - inf = nan as facts about model and class, outside the quantifier).",
         note="Theorems are about the model over Q (one rounding of r+d is what the float reading adds; the oracle measures it "
              "exactly with Fractions on the implementation). Trusted: Lean kernel, propext/Classical.choice/Quot.sound, the "
              "correspondence harness, Lean's native Float for + - * / floor, the model's exact integer fmod (self-checked "
@@ -56,7 +56,10 @@ CLAIMED = {
              "mutations through not-yet-inserted branches, insert read-back, unchanged global state between commits, independent-active "
              "rule. Correspondence: random extract/mutate/insert/extract-active sessions against the real classes with deep snapshots "
              "after every operation, plus real runs with the state handler wrapped (global state unchanged between commits).",
-        note="refines_functional (simulation by a pure value map) is not stated as one theorem; its observable consequences are. Python "
+        note="JF.Props.C13Refine: ONE refinement theorem refines_functional - for every reachable session and every operation list obeying the discipline "
+             "(no in-place mutation through a branch handed out by extract_global_state or already inserted; shown necessary by two concrete histories), "
+             "abs (run s0 ops) = Spec.run (abs s0) ops with equal outcome traces, Spec a pure value map; isolation, insert_readback, between_commits, "
+             "active_extraction are corollaries stated on the spec and transported. Python "
              "set iteration order is not modelled (two-level dictionary order compared as sets). Trusted: Lean kernel + standard axioms, harness.",
         technique="Lean 4 proof over a hand-written reference-store model + differential correspondence (operation sequences and real runs)",
         ref="§5 C13"),
@@ -69,7 +72,9 @@ CLAIMED = {
              "generated files, bit-exact; Counter oracle on the implementation.",
         note="That the occupancy establishes the invariant C10 assumes is now a theorem: JF/Props/C10C11.lean derives C10.OccInv (and restates the "
              "partition theorems without any occupancy hypothesis) at every reachable state of C11's occupancy model; what remains is C11's "
-             "history premise and InGrid (position_to_cell lands in the cell system, C16). The float detour inside translate/relative_cell is tied by "
+             "history premise and InGrid (position_to_cell lands in the cell system, C16) - and both are DERIVED along every run of the composed coulomb_atoms system "
+             "(JF/Props/C10Closed.lean: cell_partition_total_closed, yields_partition_every_leg, pending_partition_closed - every partner has exactly one pending "
+             "coverage among the events in the scheduler - under SystemInv's hypotheses incl. TieFreeAll, and CellOfInGrid from a GridBox). The float detour inside translate/relative_cell is tied by "
              "correspondence to the integer torus. KeyError on a leaf mentioned by no line of an intra-object type is modelled as a loud "
              "error outcome (outside the property; no shipped file affected).",
         technique="Lean 4 proof over hand-written models + bit-exact differential correspondence + Counter oracle",
